@@ -3,8 +3,8 @@ import os, random
 import vlib
 
 LEAVES = ["bool", "int", "int8", "int16", "int32", "int64", "uint", "uint8", "uint16", "uint32", "uint64", "float32", "float64",
-          "string", "bytes", "number", "raw", "time", "any", "nany", "iface", "M_val", "M_ptr", "TM_val", "TM_ptr", "MU_both", "TMK", "MI", "TS", "TI"]
-WRAPPERS = ["ptr", "slice", "array2", "array1", "mapstr", "mapint", "maptm", "mapts", "struct1", "structopt"]
+          "string", "bytes", "number", "raw", "time", "any", "nany", "iface", "M_val", "M_ptr", "TM_val", "TM_ptr", "MU_both", "TMK", "MI", "TS", "TI", "MB", "NPI"]
+WRAPPERS = ["ptr", "slice", "array2", "array1", "mapstr", "mapint", "maptm", "mapts", "mapkm", "struct1", "structopt"]
 
 
 def tla_set(xs):
@@ -57,3 +57,8 @@ def run(prop, tier, seed, rule, assumptions, shards=4, isolate=True, fields=True
     ck.rule = rule
     ck.assumptions = assumptions
     return ck.finish()
+
+
+def base64_defines(thorough):
+    """constants of spec/Base64.tla per tier"""
+    return {"MaxLen": 4 if thorough else 3, "Reps": "{0, 11, 22}" if thorough else "{0, 11}"}
